@@ -459,6 +459,19 @@ func stSigVer(r *Rng) trustpolicy.SignatureVerification {
 			}
 			sv.Override[trustpolicy.ValidationType(t)] = trustpolicy.ValidationAction(a)
 		}
+		// Go ranges over the map in a random order: with two offending entries the
+		// reported error is not determined, so at most one is kept
+		bad := 0
+		for t, a := range sv.Override {
+			okT := t == "authenticity" || t == "authenticTimestamp" || t == "expiry" || t == "revocation"
+			okA := a == "enforce" || a == "log" || (a == "skip" && t == "revocation")
+			if !okT || !okA {
+				bad++
+				if bad > 1 {
+					delete(sv.Override, t)
+				}
+			}
+		}
 	}
 	if r.Intn(3) == 0 {
 		sv.VerifyTimestamp = trustpolicy.TimestampOption(Pick(r, []string{"always", "afterCertExpiry", "never", ""}))
